@@ -31,8 +31,18 @@ func writeSession(o *Out, kind string, wo wOpts, roots []cid.Cid, bs []Blk, seq 
 			return nil
 		}
 		defer st.cleanup()
-		for _, b := range bs {
+		for i := 0; i < len(bs); {
+			// the blockstore's batch entry point: a batch may repeat a block of the same batch
+			if k := batchLen(kind, bs, i, seq); k > 0 {
+				many := bs[i : i+k]
+				o.Line("many b="+blocksStr(many), "r="+st.do("many", cid.Undef, nil, many))
+				o.Count("write/bs-putmany")
+				i += k
+				continue
+			}
+			b := bs[i]
 			o.Line(fmt.Sprintf("put c=%x d=%s", b.C.Bytes(), hexOr(b.D)), "r="+st.do("put", b.C, b.D, nil))
+			i++
 		}
 		o.Line("finalize", "r="+st.do("finalize", cid.Undef, nil, nil))
 		f := st.fileBytes()
@@ -102,6 +112,19 @@ func writeSession(o *Out, kind string, wo wOpts, roots []cid.Cid, bs []Blk, seq 
 		return buf.Bytes()
 	}
 	panic(kind)
+}
+
+// batchLen: how many of the next blocks go into one PutMany (0 = a single Put). Derived from the
+// session number and position only, so a script replays exactly.
+func batchLen(kind string, bs []Blk, i, seq int) int {
+	if kind != "bs" || seq%2 == 0 {
+		return 0
+	}
+	k := 1 + (seq*7+i*3)%4
+	if k > len(bs)-i {
+		k = len(bs) - i
+	}
+	return k
 }
 
 type plainWriter struct{ w *bytes.Buffer }
@@ -222,6 +245,15 @@ func famC01(g *Gen, o *Out, n int, thorough bool) {
 			maxB = 12
 		}
 		bs := g.Blocks(maxB)
+		if len(bs) > 0 && g.pick(3) == 0 {
+			// an immediate or near repeat, so that one PutMany batch carries the same block twice
+			i := g.pick(len(bs))
+			j := i + 1 + g.pick(2)
+			if j > len(bs) {
+				j = len(bs)
+			}
+			bs = append(bs[:j:j], append([]Blk{bs[i]}, bs[j:]...)...)
+		}
 		o.HashBlocks(bs)
 		roots := g.Roots(bs)
 		wo := g.wOpts()
